@@ -181,24 +181,41 @@ def nanLast (c : Cmp β) : Cmp (Val β) where
   le | _, .nan => true | .num a, .num b => c.le a b | .nan, .num _ => false
   eq | .nan, .nan => true | .num a, .num b => c.eq a b | _, _ => false
 
+/-- the longest prefix of `l` whose key equals (`c.eq`) the key of the first element; an empty
+list stays empty.  On a list sorted by `key` these are all elements with the smallest key. -/
+def tiedPrefix {γ κ : Type} (c : Cmp κ) (key : γ → κ) : List γ → List γ
+  | [] => []
+  | x :: xs => x :: xs.takeWhile fun y => c.eq (key y) (key x)
+
 /-- `GetBestTrials(count)`.  Multi-objective: `FastParetoOptimalAlgorithm()` has
 `recursive_threshold = 10000`, below which it is its base (naive) algorithm; the model
 is for studies of at most 10000 trials.  Single objective: `argsort(-labels)[:count or 1]`
 (stable here; ties are "broken arbitrarily" by numpy).  `none` = ValueError.
 `filterEligible = false` is the code as written (all trials of the study enter the
 ranking); `true` is the proposed fix (only completed feasible trials reporting a number
-for every objective). -/
+for every objective).
+`allTied` only matters for a single objective with `count = none` (docstring: "If `count` is
+unset, returns all tied top trials"): `allTied = false` is `count = count or 1`, i.e. ONE trial
+even when several attain the best value; `allTied = true` is the repair: `sorted[:k]` with `k`
+the number of labels equal to the best one, i.e. the longest prefix of the sorted list whose
+key equals — in the comparison the sort uses, `(nanLast o.cmp).eq` — the key of its first
+element.  An explicit `count` (and `count = 0`, which `or` turns into 1) is `sorted[:count]`
+under both variants. -/
 def getBest (o : OrderOps β) (objs : List (μ × Goal)) (safety : List (μ × Goal × β))
-    (filterEligible : Bool) (count : Option Nat) (allTrials : List (PTrial μ β)) :
+    (filterEligible : Bool) (allTied : Bool) (count : Option Nat) (allTrials : List (PTrial μ β)) :
     Option (List (PTrial μ β)) :=
   if objs.isEmpty then none
   else
     let trials := if filterEligible then allTrials.filter (eligibleP objs) else allTrials
     let labels := trials.map (labelRow o objs safety)
     if objs.length = 1 then
-      let cnt := match count with | some (n + 1) => n + 1 | _ => 1      -- count or 1
       let keyed := trials.zip (labels.map fun r => negV o.neg (r.headD .nan))
-      some (((sortBy (nanLast o.cmp) (·.2) keyed).take cnt).map (·.1))
+      let sorted := sortBy (nanLast o.cmp) (·.2) keyed
+      let top := match count with
+        | some (n + 1) => sorted.take (n + 1)
+        | some 0 => sorted.take 1                                        -- count or 1
+        | none => if allTied then tiedPrefix (nanLast o.cmp) (·.2) sorted else sorted.take 1
+      some (top.map (·.1))
     else
       let isOptimal := naive o.cmp.val labels
       let best := ((trials.zip isOptimal).filter (·.2)).map (·.1)
